@@ -152,11 +152,13 @@ def replay(lentil, rec, fields, ctx):
 def run(ctx, lentil):
     q = ctx.tier == 'quick'
     recs = []
-    r = run_tlc('MC_PlaneHist', env={'PH_LEN': 3 if q else 4}, workers=4, timeout=900, coverage=True)
-    ctx.add_tlc(r, f"MC_PlaneHist exhaustive length {3 if q else 4}")
+    # (exhaustive to length 3 in both tiers: with the held wavefronts and the tilt element the graph of length 4 has about a
+    #  million behaviours; the thorough tier adds depth by simulation instead)
+    r = run_tlc('MC_PlaneHist', env={'PH_LEN': 3}, workers=4, timeout=900, coverage=True)
+    ctx.add_tlc(r, "MC_PlaneHist exhaustive length 3")
     ctx.require_coverage(r, ['AddRamp', 'AddRampIn', 'SetBase', 'FitIn', 'FitCopy', 'Copy', 'Observe', 'Pass', 'TrimTilt', 'ShallowFit', 'ObserveHeld', 'Steer', 'EditElem', 'PassVia', 'ObserveVia'])
     recs += r.emits
-    r2 = run_tlc('MC_PlaneHist', env={'PH_LEN': 8}, workers=1, timeout=900, simulate=f"num={1500 if q else 12000}", depth=9, seed=ctx.seed + 11)
+    r2 = run_tlc('MC_PlaneHist', env={'PH_LEN': 8}, workers=1, timeout=900, simulate=f"num={1500 if q else 40000}", depth=9, seed=ctx.seed + 11)
     ctx.add_tlc(r2, 'MC_PlaneHist simulate length 8')
     recs += r2.emits
     effs = set()
